@@ -1,14 +1,84 @@
-"""C14 — timestamps, ranges, copy sources, content types keep their meaning through text."""
-from vlib import kobl
+"""C14 — timestamps, ranges, copy sources, content types keep their meaning through text.
+Engines: Kani/CBMC harnesses (kani/specs/C14.json: Range::check full width, Range::parse grammar, CopySource);
+rsx data-flow obligation on Timestamp::format (the value formatted is the UTC conversion of the instant) with a
+native witness sweep — the `time` crate's formatter/parser did not fit CBMC (measured: out of memory at 8 GB even
+with one symbolic field), so timestamp text is NOT decided symbolically; see outside_claim."""
+import os
+import sys
+import time
+
+sys.path.insert(0, os.path.join(os.path.dirname(os.path.dirname(os.path.abspath(__file__))), "rsx"))
+import rsx  # noqa: E402
+from vlib import kspec, replay, src  # noqa: E402
 
 LEVEL = "model_checking"
 
 
+def timestamp_dataflow(rep):
+    """rsx structural obligation: in Timestamp::format the receiver of format_into is self.0 converted to UTC"""
+    t0 = time.time()
+    ast = rsx.parse_file(src("crates/s3s/src/dto/timestamp.rs"))
+    bad = []
+    found = 0
+
+    def walk(n, fn_name):
+        nonlocal found
+        if isinstance(n, dict):
+            if n.get("k") == "MethodCall" and n.get("m") == "format_into":
+                found += 1
+                r = n["recv"]
+                ok = r.get("k") == "MethodCall" and r.get("m") == "to_offset" and "UTC" in str(r.get("args"))
+                if not ok:
+                    bad.append("line %s: format_into is applied to %s, not to the UTC conversion of the instant" % (n.get("line"), str(r)[:80]))
+            for v in n.values():
+                walk(v, fn_name)
+        elif isinstance(n, list):
+            for v in n:
+                walk(v, fn_name)
+    walk(ast, None)
+    rep.encoded("crates/s3s/src/dto/timestamp.rs", "Timestamp::format (data flow into format_into)")
+    if found == 0:
+        rep.fail_inconclusive("Timestamp::format no longer calls format_into: the data-flow obligation has to be restated")
+        return
+    if bad:
+        out = replay.call_fn("timestamp_format", 1710068400, 3600, "datetime")
+        conf = out.get("reparsed_unix_nanos") != "1710068400000000000"
+        res = rep.violation("timestamp_offset_dropped", "; ".join(bad) + " (11:00Z expressed as 12:00+01:00 prints %s)" % out.get("ok"),
+                            rep.save_cex("timestamp_offset", {"dataflow": bad, "replay": out}), confirmed=conf)
+        rep.obligation("Timestamp::format formats the UTC conversion of the instant", "rsx(dataflow)+replayer", res, time.time() - t0)
+    else:
+        rep.obligation("Timestamp::format formats the UTC conversion of the instant (%d format_into sites)" % found,
+                       "rsx(dataflow)", "holds", time.time() - t0)
+
+
+def timestamp_witnesses(rep):
+    t0 = time.time()
+    tot = 0
+    for base in (1515531081, 951782400, 253370764800):     # 2018-01-09, 2000-02-29 (leap day), 9999-01-01
+        out = replay.call_fn("timestamp_sweep", base)
+        if "evaluations" not in out:
+            rep.fail_inconclusive("timestamp sweep failed: %s" % out)
+            return
+        tot += out["evaluations"]
+        if out["bad"]:
+            b = out["bad"][0]
+            res = rep.violation("timestamp_roundtrip:fmt%s" % b.get("fmt"), "format-then-parse changes the instant: %s" % b,
+                                rep.save_cex("timestamp_sweep", out["bad"]), confirmed=True)
+            rep.obligation("timestamp witness sweep", "replayer(native sweep)", res, time.time() - t0)
+            return
+    rep.traces_validated += tot
+    rep.obligation("witness sweep: %d (instant, offset, format) triples: parse(format(t)) is the same instant to the format's precision" % tot,
+                   "replayer(native sweep, not solver-decided)", "holds", time.time() - t0, queries=tot)
+
+
 def run(rep, tier):
     rep.encoded("crates/s3s/src/dto/range.rs", "Range::check, Range::parse")
+    rep.encoded("crates/s3s/src/dto/copy_source.rs", "CopySource::parse, format_to_string")
     rep.bound("Range::check: all Range values x all u64 lengths (full width, no unwinding needed)")
-    jobs = [
-        dict(harness="c14_range::c14_range_check_rfc9110", timeout=600,
-             what="Range::check equals the RFC 9110 interval for every range and length"),
-    ]
-    kobl.add_kani(rep, jobs, parallel=2)
+    kspec.run_spec(rep, "C14", tier, budget_s=500)
+    timestamp_dataflow(rep)
+    timestamp_witnesses(rep)
+    rep.out("timestamp text: the time crate's formatter/parser exceed CBMC (OOM at 8 GB with one symbolic field) — decided only by "
+            "the data-flow obligation + native sweep (ms of 3 seconds x 6 offsets x 3 formats); epoch-seconds formatting goes through f64; "
+            "mime/content types (third party parser, no harness finished); copy-source harnesses use concrete keys (a symbolic "
+            "byte makes urlencoding::decode fork beyond the cap); Range numbers of more than 8 digits")
